@@ -54,6 +54,7 @@ let run_case ~(dflt : kind) (c : case) =
     | "keys" :: ks -> keys := Array.append !keys (Array.of_list (L.map z_of_string ks))
     | ["kind"; k] -> kd := kind_of_string k
     | ["vsign"; _] -> ()
+    | "swapobj" :: _ -> ()   (* the driver moves the tree between two objects: contents unchanged *)
     | ["cmpmode"; _] -> ()   (* magnitude of the C comparator's results: only the sign matters *)
     | _ ->
       let key n = let i = int_of_nat n in if i < Array.length !keys then !keys.(i) else BinNums.Z0 in
@@ -120,6 +121,7 @@ let run_case_links ~(dflt : kind) (c : case) =
     | "keys" :: ks -> keys := Array.append !keys (Array.of_list (L.map z_of_string ks))
     | ["kind"; k] -> kd := kind_of_string k
     | ["vsign"; _] -> ()
+    | "swapobj" :: _ -> ()   (* the driver moves the tree between two objects: contents unchanged *)
     | ["cmpmode"; _] -> ()
     | _ ->
       let key n = let i = int_of_nat n in if i < Array.length !keys then !keys.(i) else BinNums.Z0 in
